@@ -17,4 +17,9 @@ def configLocks : List (String × List String) := [
     (nesting 0 = not inside any if/for/switch: registered for the local and the remote endpoint alike) -/
 def adminRoutes : List String := ["\"/\"+rawConfigKey+\"/\"|AdminHandlerFunc(handleConfig)|0", "\"/id/\"|AdminHandlerFunc(handleConfigID)|0", "\"/stop\"|AdminHandlerFunc(handleStop)|0", "\"/debug/pprof/\"|http.HandlerFunc(pprof.Index)|0", "\"/debug/pprof/cmdline\"|http.HandlerFunc(pprof.Cmdline)|0", "\"/debug/pprof/profile\"|http.HandlerFunc(pprof.Profile)|0", "\"/debug/pprof/symbol\"|http.HandlerFunc(pprof.Symbol)|0", "\"/debug/pprof/trace\"|http.HandlerFunc(pprof.Trace)|0", "\"/debug/vars\"|expvar.Handler()|0", "route.Pattern|route.Handler|2"]
 
+/-- admin.go handleConfig (package-level helpers inlined): the pooled response buffer, in source order -
+    (<fn>, Get | Put | defer:Put) for bufferPool.Get/Put and (<fn>, Write) for w.Write, <fn> = the function whose body
+    contains the statement (a deferred Put runs when that function returns) -/
+def responseBuffer : List (String × String) := [("handleConfig", "Get"), ("handleConfig", "defer:Put"), ("handleConfig", "Write")]
+
 end CaddyModel.Gen
